@@ -18,6 +18,7 @@ type PropPlan struct {
 	Level       string        `json:"level"` // proof | other
 	Packages    []string      `json:"packages"`
 	Functions   []string      `json:"functions"` // contract keys relative to the module path
+	Sweep       []string      `json:"sweep,omitempty"` // functions checked against the default safety contract (no annotations)
 	Runtime     []RuntimePlan `json:"runtime,omitempty"`
 	Bounded     []BoundedPlan `json:"bounded,omitempty"`
 	Static      []string      `json:"static,omitempty"` // built-in structural obligations (frames, map ranges, ...)
@@ -134,8 +135,8 @@ func cmdCheck(args []string) int {
 	run := &checkRun{id: id, tier: *tier, repo: *repo, scratch: scratch, timeout: timeout, verbose: *verbose, seed: seed}
 
 	// --- P tier: functions of /repo under contract
-	if len(plan.Functions) > 0 {
-		rs, err := run.verifyRepoFunctions(plan.Packages, plan.Functions)
+	if len(plan.Functions)+len(plan.Sweep) > 0 {
+		rs, err := run.verifyRepoFunctions(plan.Packages, plan.Functions, plan.Sweep)
 		if err != nil {
 			fmt.Fprintln(os.Stderr, "error:", err)
 			violations = append(violations, violation{Obligation: id + "/load", Reason: "the packages under contract could not be loaded: " + err.Error()})
@@ -406,7 +407,7 @@ func (r *checkRun) contracts() (*ContractSet, error) {
 	return cs, nil
 }
 
-func (r *checkRun) verifyRepoFunctions(pkgs, funcs []string) ([]*FuncResult, error) {
+func (r *checkRun) verifyRepoFunctions(pkgs, funcs, sweep []string) ([]*FuncResult, error) {
 	v, err := Load(r.repo, pkgs, nil)
 	if err != nil {
 		return nil, err
@@ -436,6 +437,26 @@ func (r *checkRun) verifyRepoFunctions(pkgs, funcs []string) ([]*FuncResult, err
 				disp = fmt.Sprintf("%s[%s]", disp, instanceTag(fn.String(), i))
 			}
 			results = append(results, v.VerifyFunc(fn, ct, disp))
+		}
+	}
+	for _, f := range sweep {
+		key := modPath + "/" + f
+		fns := v.FindFunctions(key)
+		if len(fns) == 0 {
+			results = append(results, &FuncResult{Key: displayName(key), Err: "function of the safety sweep not found in the current tree"})
+			continue
+		}
+		for _, fn := range fns {
+			if fn.Origin() != nil {
+				continue
+			}
+			ct := cs.Funcs[key]
+			if ct == nil {
+				ct = defaultSafetyContract(fn)
+			}
+			res := v.VerifyFunc(fn, ct, displayName(key))
+			res.Assumptions = append(res.Assumptions, "default safety contract of "+displayName(key)+": receiver and pointer parameters are non-nil, nothing is promised; only the panic obligations of the body are generated")
+			results = append(results, res)
 		}
 	}
 	v.Discharge(results, 8)
